@@ -1,6 +1,7 @@
 package cli
 
 import (
+	"errors"
 	"github.com/jotaen/klog/klog"
 	"github.com/jotaen/klog/klog/app"
 	"github.com/jotaen/klog/klog/app/cli/util"
@@ -52,6 +53,9 @@ func (opt *Stop) Run(ctx app.Context) app.Error {
 		func(reconciler *reconciling.Reconciler) error {
 			if shouldTryYesterday && reconciler.Record.Date().IsEqualTo(yesterday) {
 				time, _ = time.Plus(klog.NewDuration(24, 0))
+				if time == nil {
+					return errors.New("The current time cannot be represented at the date of the record")
+				}
 			}
 			return reconciler.CloseOpenRange(time, opt.TimeFormat(ctx.Config()), opt.Summary)
 		},
